@@ -274,3 +274,10 @@ Theorem py_init_state : forall t, wf_table t = true -> forall gv,
 Proof.
   intros t Hwf gv. destruct (py_sem t Hwf [] gv) as (p & H1 & H2). exists p. split; assumption.
 Qed.
+
+(* The bare names of the template's module, as the theorem's name-domain hypothesis assumes them.  A template that binds
+   further library names at module level (from queue import Queue, Empty ...) changes Gen/PyTmpl.v and this stops compiling. *)
+Lemma py_reserved_as_assumed :
+  py_reserved_names = ["Enum"; "EventStartup"; "auto"; "queue"; "threading"; "unique"] /\
+  py_reserved_suffixes = ["StateId"; "StateMachine"].
+Proof. split; reflexivity. Qed.
